@@ -416,6 +416,13 @@ def r4(R):
                         for e in p2["p"]:
                             if e["k"] == "field" and e.get("adt") == SD:
                                 reads.add(e["n"])
+                # fields of the database read by the methods the computation calls (the cached value may be `this.turtle_term(raw)`)
+                from lib import cover
+                for cc in x.calls():
+                    cb = prog.bodies.get(cc.key)
+                    if cb is not None and cb.crate == "kolibrie" and cb.self_adt == SD and cc.name() not in ("add_triple", "add_quad", "encode_term_star", "encode_loaded_term"):
+                        if vl is not None and (("call", cc.name()) in der):
+                            reads |= set(cover.consulted_fields(prog, cb, SD))
                 stale = sorted(f for f in reads if f in written and f not in ("dictionary", "dataset_index", "quoted_triple_store"))
                 cleared = any(cc.name() == "clear" and cc.args and _map_identity(y, cc.args[0]) is not None and
                               (_map_identity(y, cc.args[0]) == m or _map_identity(y, cc.args[0])[1:] == m[1:]) for y in fam for cc in y.calls())
